@@ -536,5 +536,273 @@ theorem run_refines (s : State) (h : CacheOK s) (ops : List Op) :
     exact ⟨h4, h5, by rw [h3, h6]⟩
 
 
+/-! ## Unique keys in every reachable content -/
+
+theorem wf_load (c : Content) (h : WF c) : WF (Ref.load c).1 := by
+  unfold Ref.load
+  cases hl : c.loaded
+  · cases hr : readGroups c.diskGroups with
+    | none => exact ⟨by simp [AL.keys], by simp [AL.keys]⟩
+    | some g =>
+      exact ⟨nodup_keys_updateD _ _ (by simp [AL.keys]), nodup_keys_updateD _ _ (by simp [AL.keys])⟩
+  · exact h
+
+theorem wf_stepLoaded (c : Content) (h : WF c) (op : Op) : WF (Ref.stepLoaded c op).1 := by
+  cases op with
+  | gset n ms => exact ⟨AL.nodup_keys_set _ _ _ h.groups, h.kerning⟩
+  | gdel n =>
+    simp only [Ref.stepLoaded]
+    split
+    · exact ⟨AL.nodup_keys_erase _ _ h.groups, h.kerning⟩
+    · exact h
+  | gclear => exact ⟨by simp [Ref.stepLoaded, AL.keys], h.kerning⟩
+  | gupdate o => exact ⟨nodup_keys_updateD _ _ h.groups, h.kerning⟩
+  | kset p v => exact ⟨h.groups, AL.nodup_keys_set _ _ _ h.kerning⟩
+  | kdel p =>
+    simp only [Ref.stepLoaded]
+    split
+    · exact ⟨h.groups, AL.nodup_keys_erase _ _ h.kerning⟩
+    · exact h
+  | kclear => exact ⟨h.groups, by simp [Ref.stepLoaded, AL.keys]⟩
+  | kupdate o => exact ⟨h.groups, nodup_keys_updateD _ _ h.kerning⟩
+  | find p d => exact h
+  | findAll ps d => exact h
+  | table t => exact h
+  | cached => exact h
+  | gdump => exact h
+  | kdump => exact h
+  | openUfo dg dk => exact h
+  | extGroups dg => exact h
+  | extKerning dk => exact h
+  | reloadGroups =>
+    simp only [Ref.stepLoaded]
+    cases hp : c.hasPath
+    · exact h
+    · cases hr : readGroups c.diskGroups with
+      | none => exact h
+      | some g => exact ⟨nodup_keys_updateD _ _ (by simp [AL.keys]), h.kerning⟩
+  | reloadKerning =>
+    simp only [Ref.stepLoaded]
+    cases hp : c.hasPath
+    · exact h
+    · exact ⟨h.groups, nodup_keys_updateD _ _ (by simp [AL.keys])⟩
+
+theorem wf_step (c : Content) (h : WF c) (op : Op) : WF (Ref.step c op).1 := by
+  have generic : ∀ op : Op,
+      WF (if (Ref.load c).2 then Ref.stepLoaded (Ref.load c).1 op else ((Ref.load c).1, Out.err "UFOLibError")).1 := by
+    intro op
+    split
+    · exact wf_stepLoaded _ (wf_load c h) op
+    · exact wf_load c h
+  cases op with
+  | openUfo dg dk => exact ⟨by simp [Ref.step, AL.keys], by simp [Ref.step, AL.keys]⟩
+  | extGroups dg => exact ⟨h.groups, h.kerning⟩
+  | extKerning dk => exact ⟨h.groups, h.kerning⟩
+  | reloadGroups =>
+    simp only [Ref.step]
+    split
+    · exact wf_stepLoaded c h _
+    · exact wf_load c h
+  | reloadKerning =>
+    simp only [Ref.step]
+    split
+    · exact wf_stepLoaded c h _
+    · exact wf_load c h
+  | _ => exact generic _
+
+theorem wf_run (c : Content) (h : WF c) (ops : List Op) : WF (Ref.run c ops).1 := by
+  induction ops generalizing c with
+  | nil => exact h
+  | cons op r ih => exact ih _ (wf_step c h op)
+
+
+/-! ## `groupsValidator` is sound for the kerning-group rule -/
+
+theorem kern1_not_kern2 {n : String} (h : isKern1 n = true) : isKern2 n = false := by
+  unfold isKern1 hasPrefix at h
+  unfold isKern2 hasPrefix
+  cases h2 : kern2Prefix.toList.isPrefixOf n.toList with
+  | false => rfl
+  | true =>
+    exfalso
+    rw [List.isPrefixOf_iff_prefix] at h h2
+    have := List.prefix_of_prefix_length_le h h2 (by decide)
+    revert this
+    decide
+
+theorem vMembers_some {seen ms s' : List String} (h : vMembers seen ms = some s') :
+    (∀ x ∈ ms, x ∉ seen) ∧ (∀ x, x ∈ s' ↔ x ∈ ms ∨ x ∈ seen) := by
+  induction ms generalizing seen with
+  | nil => simp [vMembers] at h; subst h; simp
+  | cons y r ih =>
+    simp only [vMembers] at h
+    split at h
+    · simp at h
+    · rename_i hy
+      obtain ⟨h1, h2⟩ := ih h
+      constructor
+      · intro x hx
+        simp at hx
+        rcases hx with rfl | hx
+        · exact hy
+        · intro hs; exact h1 x hx (List.mem_cons_of_mem _ hs)
+      · intro x
+        rw [h2]
+        simp only [List.mem_cons]
+        constructor
+        · rintro (h | h | h)
+          · exact Or.inl (Or.inr h)
+          · exact Or.inl (Or.inl h)
+          · exact Or.inr h
+        · rintro ((h | h) | h)
+          · exact Or.inr (Or.inl h)
+          · exact Or.inl h
+          · exact Or.inr (Or.inr h)
+
+theorem validSide_cons_of_not_side {side : String → Bool} {n : String} {ms : List String} {r : GroupsD}
+    (hn : side n = false) (h : ValidSide side r) : ValidSide side ((n, ms) :: r) := by
+  intro n1 ms1 n2 ms2 x h1 h2 s1 s2 x1 x2
+  simp only [List.mem_cons, Prod.mk.injEq] at h1 h2
+  rcases h1 with ⟨rfl, rfl⟩ | h1
+  · rw [hn] at s1; cases s1
+  · rcases h2 with ⟨rfl, rfl⟩ | h2
+    · rw [hn] at s2; cases s2
+    · exact h n1 ms1 n2 ms2 x h1 h2 s1 s2 x1 x2
+
+theorem validSide_cons_of_fresh {side : String → Bool} {n : String} {ms : List String} {r : GroupsD}
+    (hf : ∀ n' ms' x, (n', ms') ∈ r → side n' = true → x ∈ ms' → x ∉ ms)
+    (h : ValidSide side r) : ValidSide side ((n, ms) :: r) := by
+  intro n1 ms1 n2 ms2 x h1 h2 s1 s2 x1 x2
+  simp only [List.mem_cons, Prod.mk.injEq] at h1 h2
+  rcases h1 with ⟨rfl, rfl⟩ | h1
+  · rcases h2 with ⟨rfl, rfl⟩ | h2
+    · rfl
+    · exact absurd x1 (hf n2 ms2 x h2 s2 x2)
+  · rcases h2 with ⟨rfl, rfl⟩ | h2
+    · exact absurd x2 (hf n1 ms1 x h1 s1 x1)
+    · exact h n1 ms1 n2 ms2 x h1 h2 s1 s2 x1 x2
+
+theorem validateFrom_sound (seen1 seen2 : List String) (g : GroupsD)
+    (h : validateFrom seen1 seen2 g = true) :
+    (∀ n ms x, (n, ms) ∈ g → isKern1 n = true → x ∈ ms → x ∉ seen1) ∧
+    (∀ n ms x, (n, ms) ∈ g → isKern2 n = true → x ∈ ms → x ∉ seen2) ∧
+    ValidSide isKern1 g ∧ ValidSide isKern2 g := by
+  induction g generalizing seen1 seen2 with
+  | nil =>
+    refine ⟨by simp, by simp, ?_, ?_⟩ <;> intro n1 ms1 n2 ms2 x h1 <;> simp at h1
+  | cons p r ih =>
+    obtain ⟨n, ms⟩ := p
+    simp only [validateFrom] at h
+    split at h
+    · simp at h
+    · by_cases hk1 : isKern1 n = true
+      · have hk2 : isKern2 n = false := kern1_not_kern2 hk1
+        simp only [hk1, if_true] at h
+        split at h
+        · simp at h
+        · cases hv : vMembers seen1 ms with
+          | none => simp [hv] at h
+          | some s1 =>
+            simp only [hv] at h
+            obtain ⟨a, b, c, d⟩ := ih s1 seen2 h
+            obtain ⟨v1, v2⟩ := vMembers_some hv
+            refine ⟨?_, ?_, ?_, ?_⟩
+            · intro n' ms' x hm hs hx
+              simp only [List.mem_cons, Prod.mk.injEq] at hm
+              rcases hm with ⟨rfl, rfl⟩ | hm
+              · exact v1 x hx
+              · intro hs1; exact a n' ms' x hm hs hx ((v2 x).2 (Or.inr hs1))
+            · intro n' ms' x hm hs hx
+              simp only [List.mem_cons, Prod.mk.injEq] at hm
+              rcases hm with ⟨rfl, rfl⟩ | hm
+              · rw [hk2] at hs; cases hs
+              · exact b n' ms' x hm hs hx
+            · apply validSide_cons_of_fresh _ c
+              intro n' ms' x hm hs hx hxm
+              exact a n' ms' x hm hs hx ((v2 x).2 (Or.inl hxm))
+            · exact validSide_cons_of_not_side hk2 d
+      · have hk1' : isKern1 n = false := by simpa using hk1
+        simp only [hk1', Bool.false_eq_true, if_false] at h
+        by_cases hk2 : isKern2 n = true
+        · simp only [hk2, if_true] at h
+          split at h
+          · simp at h
+          · cases hv : vMembers seen2 ms with
+            | none => simp [hv] at h
+            | some s2 =>
+              simp only [hv] at h
+              obtain ⟨a, b, c, d⟩ := ih seen1 s2 h
+              obtain ⟨v1, v2⟩ := vMembers_some hv
+              refine ⟨?_, ?_, ?_, ?_⟩
+              · intro n' ms' x hm hs hx
+                simp only [List.mem_cons, Prod.mk.injEq] at hm
+                rcases hm with ⟨rfl, rfl⟩ | hm
+                · rw [hk1'] at hs; cases hs
+                · exact a n' ms' x hm hs hx
+              · intro n' ms' x hm hs hx
+                simp only [List.mem_cons, Prod.mk.injEq] at hm
+                rcases hm with ⟨rfl, rfl⟩ | hm
+                · exact v1 x hx
+                · intro hs2; exact b n' ms' x hm hs hx ((v2 x).2 (Or.inr hs2))
+              · exact validSide_cons_of_not_side hk1' c
+              · apply validSide_cons_of_fresh _ d
+                intro n' ms' x hm hs hx hxm
+                exact b n' ms' x hm hs hx ((v2 x).2 (Or.inl hxm))
+        · have hk2' : isKern2 n = false := by simpa using hk2
+          simp only [hk2', Bool.false_eq_true, if_false] at h
+          obtain ⟨a, b, c, d⟩ := ih seen1 seen2 h
+          refine ⟨?_, ?_, validSide_cons_of_not_side hk1' c, validSide_cons_of_not_side hk2' d⟩
+          · intro n' ms' x hm hs hx
+            simp only [List.mem_cons, Prod.mk.injEq] at hm
+            rcases hm with ⟨rfl, rfl⟩ | hm
+            · rw [hk1'] at hs; cases hs
+            · exact a n' ms' x hm hs hx
+          · intro n' ms' x hm hs hx
+            simp only [List.mem_cons, Prod.mk.injEq] at hm
+            rcases hm with ⟨rfl, rfl⟩ | hm
+            · rw [hk2'] at hs; cases hs
+            · exact b n' ms' x hm hs hx
+
+/-- whatever `readGroups` accepts obeys the kerning-group rule -/
+theorem readGroups_valid {disk g : GroupsD} (h : readGroups disk = some g) : ValidGroups g := by
+  unfold readGroups at h
+  simp only [] at h
+  split at h
+  · rename_i hv
+    simp at h; subst h
+    obtain ⟨_, _, c, d⟩ := validateFrom_sound [] [] _ hv
+    exact ⟨c, d⟩
+  · simp at h
+
+
+theorem mem_updateD {κ α : Type} [DecidableEq κ] {d o : List (κ × α)} {p : κ × α}
+    (h : p ∈ updateD d o) : p ∈ d ∨ p ∈ o := by
+  unfold updateD at h
+  induction o generalizing d with
+  | nil => exact Or.inl (by simpa using h)
+  | cons q r ih =>
+    simp only [List.foldl_cons] at h
+    rcases ih h with h1 | h1
+    · rcases AL.mem_set h1 with h2 | h2
+      · exact Or.inr (by rw [h2]; simp)
+      · exact Or.inl h2
+    · exact Or.inr (List.mem_cons_of_mem _ h1)
+
+theorem validSide_of_subset {side : String → Bool} {g g' : GroupsD} (h : ValidSide side g)
+    (hs : ∀ p ∈ g', p ∈ g) : ValidSide side g' :=
+  fun n1 ms1 n2 ms2 x h1 h2 => h n1 ms1 n2 ms2 x (hs _ h1) (hs _ h2)
+
+theorem validGroups_updateD_nil {g : GroupsD} (h : ValidGroups g) : ValidGroups (updateD [] g) := by
+  have hs : ∀ p ∈ updateD [] g, p ∈ g := by
+    intro p hp
+    rcases mem_updateD hp with h1 | h1
+    · simp at h1
+    · exact h1
+  exact ⟨validSide_of_subset h.1 hs, validSide_of_subset h.2 hs⟩
+
+theorem validGroups_nil : ValidGroups [] := by
+  constructor <;> intro n1 ms1 n2 ms2 x h1 <;> simp at h1
+
+
 end Kern
 end DefconModel
